@@ -168,7 +168,12 @@ func replyCannotBeAddressed(t xml.StartElement) bool {
 		return false
 	}
 	needs, badFrom := false, false
+	// (only unqualified attributes are the stanza's own; with duplicates any of
+	// them may be the one looked at)
 	for _, a := range t.Attr {
+		if a.Name.Space != "" {
+			continue
+		}
 		switch a.Name.Local {
 		case "type":
 			if a.Value == "get" || a.Value == "set" {
